@@ -48,10 +48,11 @@ CLAIMS = {
                 "for all eight request kinds (MBAP and RTU) against a reference encoder: tx id, protocol id, length, unit, "
                 "function, big-endian fields, LSB-first coil packing, byte count, CRC. Write-multiple limits and the "
                 "maximum frame size are decided at the boundary counts with concrete-valued vectors (123/124 registers in "
-                "the quick tier; 1968/1969 coils need ~250x8 loop iterations and run in the thorough tier).",
+                "the quick tier; 1969 coils is rejected before serialisation).",
         "note": "'Rejected => nothing transmitted' is decided where bytes are produced: format_request returns Err instead "
                 "of a frame and execute_request only writes what it returned; the task-level statement is async (" + ASYNC + "). "
-                "Vector lengths other than the boundary points and 1/3/9/17 values are outside.",
+                "NOT decided: that exactly 1968 coils is ACCEPTED (the query unrolls ~2000 iterations over heap data and never "
+                "completed in > 50 min; kept unregistered). Vector lengths other than the boundary points and 1/3/9/17 values are outside.",
         "design": "DESIGN.md 5.3",
     },
     "C04": {
@@ -80,9 +81,11 @@ CLAIMS = {
                 "(content preserved in order, compaction at the end of the array, appended bytes in arrival order, progress, one "
                 "transport read per call); the buffer accessors from an arbitrary state.",
         "note": "The parser step and the read step are inductive (arbitrary state) and carry the argument to streams of any length. "
-                "The end-to-end query (FramedReader::next_frame with a solver-chosen chunk size at every read) ran out of memory "
-                "at 10-byte streams; it is kept in the thorough tier at 8 bytes and is NOT part of the quick verdict. TLS delivers "
-                "the same byte stream through the same reader and is outside.",
+                "No END-TO-END query exists: FramedReader::next_frame with a solver-chosen chunk size at every read ran out of memory "
+                "at 10-byte streams and timed out at 40 min / 24 GB at 8 bytes (kept unregistered), so chunking-independence of "
+                "whole streams rests on composing those two steps, which is an argument and not a solver verdict. Quick tier: "
+                "parser at buffer offset 0 (300 s); every offset of the 260-byte array in the thorough tier (650-980 s). TLS "
+                "delivers the same byte stream through the same reader and is outside.",
         "design": "DESIGN.md 5.5",
     },
     "C06": {
@@ -116,11 +119,12 @@ CLAIMS = {
                 "ReadOnlyAuthorizationHandler and the trait's default-deny for all arguments. Glue (handle_frame whole): deny => "
                 "zero point-handler calls and exception 01; allow => exactly the behaviour without authorization (configured and "
                 "unconfigured unit ids).",
-        "note": "NOT decided: 'the decision is taken per request - an earlier allow never carries over'. The only query that "
-                "exercises two requests on one session (c08_glue_decision_per_request, thorough tier) has never completed: it "
-                "died in the solver after ~27 min both on the clean tree and against a seeded carry-over bug (reported "
-                "inconclusive, exit 2). The per-call mapping kernel shows that is_authorized keeps no state of its own, but "
-                "state added to the session (as that seeded change does) is not seen. Role extraction from the certificate is "
+        "note": "'The decision is taken per request - an earlier allow never carries over' is decided ONLY in the thorough tier: "
+                "c08_glue_decision_per_request (two requests on one session, opposite decisions) passes on the clean tree but needs "
+                "40 min and 36.6 GB resident, so thorough glue queries run one at a time under a 56 GB cap. Against the seeded "
+                "carry-over bug it yields a solver counterexample on exactly that mechanism, but Kani's trace-producing re-run "
+                "cannot generate the native replay within memory, so the check reports INCONCLUSIVE (exit 2), not a VIOLATION. "
+                "The quick tier does not see such a bug at all. Role extraction from the certificate is "
                 "C09 territory (outside). Glue runs with MAX_ADU_LENGTH=13 (hook H3) and write-single-register requests.",
         "design": "DESIGN.md 5.8",
     },
@@ -179,15 +183,15 @@ CLAIMS = {
                 "function code per query, EVERY unit id 0..255 against a one-unit map: a valid write, a malformed request, an "
                 "unsupported function and an empty frame are answered iff addressed to the configured unit and nothing is written "
                 "otherwise; on RTU a broadcast read (valid or malformed) is ignored and nothing is transmitted. "
-                "The broadcast WRITE fan-out (applied exactly once to every unit of a two-unit map, never answered) is a "
-                "thorough-tier query.",
+                "Thorough adds a malformed request and two more unsupported function codes for every unit id.",
         "note": "The glue harnesses construct the Broadcast destination themselves: that the RTU parser maps address 0 to Broadcast "
                 "is NOT decided (the receive-side parser harnesses are intractable, see C06). Function codes are fixed per query "
                 "(write single register/coil, read holding registers, 0x2B as unsupported representative; full tables in C01). "
                 "Each glue query needs 10-36 GB and 5-16 minutes; they run at most 4 at a time, so the quick check takes ~16 min. "
-                "NOT YET CONFIRMED: the broadcast-write fan-out query has not completed in any run so far (out of memory at 36 GB, "
-                "then 'CBMC failed' after 22 min, then again after slimming); it is therefore thorough-only and the quick verdict "
-                "says nothing about fan-out to every unit. Short frames (hook H3); pty sessions outside.",
+                "NOT decided: the broadcast-WRITE fan-out ('applied exactly once to every configured unit, never answered'). Its "
+                "query never completed: out of memory at 36 GB, 'CBMC failed' after 22 min, and - slimmed, alone on the machine - "
+                "54.8 GB resident and dead after 23 min; it is kept unregistered and the seeded change that stops the fan-out at "
+                "the first rejecting unit is missed. Short frames (hook H3); pty sessions outside.",
         "design": "DESIGN.md 5.17",
     },
     "C18": {
